@@ -6,6 +6,7 @@ import (
 	"fmt"
 	tiertypes "github.com/elys-network/elys/x/tier/types"
 	"sort"
+	"strings"
 	"time"
 
 	"cosmossdk.io/math"
@@ -588,6 +589,57 @@ func NewOpLib() *OpLib {
 			}
 			p.Txs = one("bot", m)
 		})
+	}
+	// LIQUIDATION AT THE EDGE: the price is moved (in the bot's own block) to where the weakest long /
+	// short sits just under the safety factor but still above 1 — the liquidation every bot races for,
+	// the only one that pays something back to the trader — and the bot names every stored position in
+	// the Liquidate list, oldest first or newest first
+	for _, side := range []perptypes.Position{perptypes.Position_LONG, perptypes.Position_SHORT} {
+		for _, order := range []string{"fwd", "rev"} {
+			side, order := side, order
+			l.Add("perp_bot_liquidate_all_"+order+"_at_edge_"+strings.ToLower(side.String()), "perp_bot", 1, func(w *World, p *BlockPlan) {
+				ctx := w.RCtx()
+				k := w.App.PerpetualKeeper
+				all := k.GetAllMTPs(ctx)
+				sf := k.GetParams(ctx).SafetyFactor
+				var weakest math.LegacyDec
+				for _, m := range all {
+					if m.Position != side {
+						continue
+					}
+					ammPool, err := k.GetAmmPool(ctx, m.AmmPoolId)
+					if err != nil {
+						continue
+					}
+					h, err := k.GetMTPHealth(ctx, m, ammPool, "uusdc")
+					if err != nil || !h.IsPositive() {
+						continue
+					}
+					if weakest.IsNil() || h.LT(weakest) {
+						weakest = h
+					}
+				}
+				if !weakest.IsNil() {
+					// target health halfway between 1 and the factor; health moves with the price (long) or against it (short)
+					target := sf.Add(math.LegacyOneDec()).QuoInt64(2)
+					np := Dec(w.Env.Atom).Mul(target).Quo(weakest)
+					if side == perptypes.Position_SHORT {
+						np = Dec(w.Env.Atom).Mul(weakest).Quo(target)
+					}
+					p.SetAtom = np.Mul(Dec("10000")).TruncateDec().Quo(Dec("10000")).String()
+				}
+				reqs := []perptypes.PositionRequest{}
+				for _, m := range all {
+					reqs = append(reqs, perptypes.PositionRequest{Address: m.Address, Id: m.Id})
+				}
+				if order == "rev" {
+					for i, j := 0, len(reqs)-1; i < j; i, j = i+1, j-1 {
+						reqs[i], reqs[j] = reqs[j], reqs[i]
+					}
+				}
+				p.Txs = one("bot", &perptypes.MsgClosePositions{Creator: w.A("bot").Addr.String(), Liquidate: reqs})
+			})
+		}
 	}
 	l.Add("perp_bot_close_all", "perp_bot", 0, func(w *World, p *BlockPlan) {
 		// bot names every stored position in all three lists (healthy or not)
